@@ -344,3 +344,55 @@ func init() {
 	})
 	libFrames["(*encoding/base64.Encoding).EncodedLen"] = map[string]Sort{}
 }
+
+func init() {
+	regModel("(*encoding/base64.Encoding).DecodedLen", func(x *Exec, fr *Frame, st *State, a []Value, pos token.Pos, rt types.Type) (Value, bool) {
+		n := tOf(a[1])
+		r := x.vc.Fresh("b64dlen", SInt)
+		// n/4*3 (padded) or n*6/8 (raw): between 0 and n for n >= 0
+		x.vc.Assert(Implies(Ge(n, IntLit(0)), And(Ge(r, IntLit(0)), Le(r, n))))
+		return VTerm{r}, true
+	})
+	libFrames["(*encoding/base64.Encoding).DecodedLen"] = map[string]Sort{}
+	regModel("(*encoding/base64.Encoding).Decode", func(x *Exec, fr *Frame, st *State, a []Value, pos token.Pos, rt types.Type) (Value, bool) {
+		// writes at most len(dst) bytes into dst and reports how many (documented: "It writes at
+		// most DecodedLen(len(src)) bytes to dst and returns the number of bytes written")
+		dst, ok := a[1].(VSlice)
+		if !ok {
+			return nil, false
+		}
+		x.havocArgs(fr, st, []Value{dst}, nil)
+		n := x.vc.Fresh("b64n", SInt)
+		x.assume(st, And(Ge(n, IntLit(0)), Le(n, dst.Len)))
+		return VStruct{F: []Value{VTerm{n}, x.freshErr("b64err")}}, true
+	})
+	libFrames["(*encoding/base64.Encoding).Decode"] = map[string]Sort{"elems|Int": arrOf(arrOf(SInt))}
+	regModel("(*encoding/base64.Encoding).Encode", func(x *Exec, fr *Frame, st *State, a []Value, pos token.Pos, rt types.Type) (Value, bool) {
+		dst, ok := a[1].(VSlice)
+		if !ok {
+			return nil, false
+		}
+		src, ok2 := a[2].(VSlice)
+		if ok2 {
+			// Encode panics (index out of range) when dst is shorter than EncodedLen(len(src)); the
+			// weakest safe requirement that does not need the exact formula is len(dst) >= len(src)
+			x.oblige(fr, st, "bounds", "b64Encode:"+x.srcText(fr.fn, pos, isCall), "base64 Encode: destination holds at least len(src) bytes", pos, Ge(dst.Len, src.Len), nil)
+		}
+		x.havocArgs(fr, st, []Value{dst}, nil)
+		return VStruct{}, true
+	})
+	libFrames["(*encoding/base64.Encoding).Encode"] = map[string]Sort{"elems|Int": arrOf(arrOf(SInt))}
+}
+
+func init() {
+	regModel("(*net/url.URL).EscapedPath", func(x *Exec, fr *Frame, st *State, a []Value, pos token.Pos, rt types.Type) (Value, bool) {
+		// the raw (still percent-encoded) path: a pure function of the URL value
+		u := tOf(a[0])
+		x.oblige(fr, st, "nil", "url.EscapedPath", "EscapedPath on nil *url.URL", pos, Neq(u, IntLit(0)), nil)
+		f := x.vc.Fun("ufs|escapedPath", []Sort{SInt}, SStr)
+		t := app(SStr, f, u)
+		x.vc.strFacts(t)
+		return VTerm{t}, true
+	})
+	libFrames["(*net/url.URL).EscapedPath"] = map[string]Sort{}
+}
